@@ -74,7 +74,8 @@ vars == <<svc, pc, tab, rt, ref, items, cur, sc, route, resp, evicts, crashed, l
 NoResp == [status |-> 0, body |-> NoTab]
 InFlight(r) == pc[r] \in {"entered", "hit", "miss", "ready", "ran", "finished", "failed"}
 
-Init == /\ svc \in Shapes
+InitSvc(shape) ==
+        /\ svc = shape
         /\ pc = [r \in Reqs |-> "new"]
         /\ tab = [r \in Reqs |-> NoTab] /\ rt = [r \in Reqs |-> NoTab]
         /\ ref = [r \in Reqs |-> 0]
@@ -83,6 +84,7 @@ Init == /\ svc \in Shapes
         /\ resp = [r \in Reqs |-> NoResp]
         /\ evicts = 0 /\ crashed = FALSE
         /\ last = [act |-> "Init", r |-> "", reply |-> ""]
+Init == \E shape \in Shapes : InitSvc(shape)
 
 Obs(a, r, y) == last' = [act |-> a, r |-> r, reply |-> y]
 
